@@ -123,6 +123,8 @@ fn candidates(p: &Plan) -> Vec<Plan> {
     cfg_off!(cli_fail_fast, false);
     cfg_off!(builder_fail_fast, false);
     cfg_off!(custom_which, false);
+    cfg_off!(cli_retry_filter, None);
+    cfg_off!(builder_retry_filter, None);
     if p.cfg.closure_retry.is_some() {
         let mut q = p.clone();
         q.cfg.closure_retry = None;
